@@ -85,7 +85,56 @@ def run_case(a, judged, rnd):
     return rec
 
 
+def run_case_interleaved(a, a2, rnd, limit):
+    """The dump() of case `a` with one complete dump() of case `a2` (another caller, another thread) placed at a line of
+    the library inside it; one record per placement, judged like any other call of case `a`."""
+    from harness import interleave
+    m, p, rid, v, cfg, fault = concretise(a, rnd)
+    m2, p2, rid2, v2, cfg2, fault2 = concretise(a2, rnd)
+    resp, notify = (True if a["resp"] else None), (True if a["notify"] else None)
+    resp2, notify2 = (True if a2["resp"] else None), (True if a2["notify"] else None)
+    fa = lambda: jsonrpc.dump(p, m, rid, v, resp, notify, cfg)
+    fb = lambda: jsonrpc.dump(p2, m2, rid2, v2, resp2, notify2, cfg2)
+    recs = []
+    for k in interleave.sample_points(interleave.points(fa), limit, rnd):
+        ra, rb, fired = interleave.run(fa, fb, k)
+        d = {"kind": "ok", "msg": ra[1]} if ra[0] == "ok" else {"kind": ra[1].split(":")[0], "msg": None}
+        fresh = []
+        for r in (ra, rb):
+            if r[0] == "ok" and isinstance(r[1], dict) and isinstance(r[1].get("id"), str):
+                fresh.append(r[1]["id"])
+        both_fresh = a["id"] in ("none", "empty") and a2["id"] in ("none", "empty")
+        recs.append({"a": a, "judged": True,
+                     "in": {"method": enc(m), "params": enc(None if fault else p), "rpcid": enc(rid),
+                            "fcode": enc(fault.faultCode if fault else None), "fmsg": enc(fault.faultString if fault else None),
+                            "fdata": enc(fault.data if fault else None)},
+                     "dump": {"kind": d["kind"], "msg": enc(d["msg"])}, "dumps": {"kind": d["kind"], "msg": enc(d["msg"])},
+                     "rt": {"kind": "none", "msg": enc(None)},
+                     "fresh": fresh if both_fresh else (fresh[:1] if a["id"] in ("none", "empty") else []), "loadsempty": "none",
+                     "repr": "dump(%r, %r, rpcid=%r, version=%r, is_response=%r, is_notify=%r, config.version=%r) with a concurrent dump(rpcid=%r, version=%r) at line event %d" % (
+                         "Fault" if fault else p, m, rid, v, resp, notify, cfg.version, rid2, v2, k)})
+    return recs
+
+
 if __name__ == "__main__":
+    if sys.argv[1] == "interleave":
+        cases = json.load(open(sys.argv[2]))
+        out, seed, npairs, limit = sys.argv[3], int(sys.argv[4]), int(sys.argv[5]), int(sys.argv[6])
+        rnd = random.Random(seed)
+        judged = [c["c"] for c in cases if c["judged"]]
+        recs = []
+        noid = [c for c in judged if c["id"] in ("none", "empty") and c["m"] == "str" and not c["resp"]]
+        for j in range(npairs):
+            if j % 3 == 0 and noid:
+                a, a2 = rnd.choice(noid), rnd.choice(noid)       # both callers leave the id to the library: it must differ
+            else:
+                a = rnd.choice(judged)
+                same = [c for c in judged if c["v"] == a["v"] and c["cv"] == a["cv"]]
+                a2 = rnd.choice(same if rnd.random() < 0.7 else judged)
+            recs += run_case_interleaved(a, a2, rnd, 400 if (j % 3 == 0 and noid and j < 30) else limit)
+        json.dump(recs, open(out, "w"))
+        print(len(recs))
+        sys.exit(0)
     cases = json.load(open(sys.argv[1]))
     out, seed, k = sys.argv[2], int(sys.argv[3]), int(sys.argv[4])
     rnd = random.Random(seed)
